@@ -251,6 +251,14 @@ func adapters() []*adapter {
 				n.ModifyIndex = sup
 				return txn1(h, idx, &structs.TxnOp{Node: &structs.TxnNodeOp{Verb: api.NodeCAS, Node: n}})
 			}},
+		// the same verb carrying a node ID that does not (yet) belong to the node registered under the name: the object
+		// the write lands on - and the one whose index must match - is still the node of that NAME
+		{name: "txn-node-cas-with-id", kind: "set", read: nodeRead, put: regNode, del: func(h *sh.H, idx uint64) { dereg(h, idx, "", "") },
+			cond: func(h *sh.H, idx, sup uint64, tag string) string {
+				n := structs.Node{ID: types.NodeID(sh.UUID("cas-node-id")), Node: node, Address: "10.0.0.1", Meta: map[string]string{"tag": tag}}
+				n.ModifyIndex = sup
+				return txn1(h, idx, &structs.TxnOp{Node: &structs.TxnNodeOp{Verb: api.NodeCAS, Node: n}})
+			}},
 		{name: "txn-node-delete-cas", kind: "del", isdel: true, read: nodeRead, put: regNode, del: func(h *sh.H, idx uint64) { dereg(h, idx, "", "") },
 			cond: func(h *sh.H, idx, sup uint64, tag string) string {
 				n := structs.Node{Node: node}
